@@ -97,7 +97,7 @@ CLAIMS = {
          "PARTIAL: 'is not still running when unsubscribe() returns' across threads is not modelled (single-threaded polls only); the real "
          "LocalPool/ThreadPool are represented by the choice of poll labels. The model's one assumption about the real timer - new_timer(d) "
          "is not ready before d has elapsed - is run against the crate built WITH its timer feature (harness_rt): timer(d) and interval(d) on "
-         "a LocalPool for 18 delays from 0 to beyond 2^64 microseconds (beyond u32 milliseconds / u32 seconds included): never early.",
+         "a LocalPool for 44 cases (timer, interval, delay, delay_subscription x 11 delays) from 0 to beyond 2^64 microseconds (beyond u32 milliseconds / u32 seconds included): never early.",
          "DESIGN.md section 5 C19"),
  "C07": ("Theorems over the timed system for EVERY label sequence (input notifications, polls of any task at any time and in any order, clock "
          "advances of any size, unsubscribe, queries): C07_delay / C07_observe_on (every delivery is the polled task's own notification, no "
@@ -118,7 +118,7 @@ CLAIMS = {
          "once, not before the due time, then completion), C08_async_prefix / C08_async_complete / C08_future_complete / C08_async_silent_after_unsub (from_future / "
          "from_stream and the _result forms relay exactly what the scripted future / stream yields, then terminate). These predicates are proved "
          "of the timed model by simulation and evaluated on every implementation trace; full traces are compared with the model on 390k cases. "
-         "The crate's real timer (feature on, harness_rt) is run on 18 delays from 0 to beyond 2^64 microseconds: timer / interval never early.",
+         "The crate's real timer (feature on, harness_rt) is run on 44 cases (timer, interval, delay, delay_subscription x 11 delays) from 0 to beyond 2^64 microseconds: timer / interval never early.",
          "DESIGN.md section 5 C08"),
  "C09": ("Theorems over the timed system for EVERY label sequence (input notifications, polls of any task at any time and in any order, clock "
          "advances of any size, unsubscribe, queries): C09_debounce / C09_throttle (all three edges) / C09_*_subsequence (what is delivered "
